@@ -50,7 +50,9 @@ def h2b(F, maxsep, wide_upto=None):
             f_ = w.fresh_str(f"f{i}", F if wide_upto is None or nsep <= wide_upto else 1)
             if w.symbolic:
                 for c in f_.cs:
-                    w.p.add(z3.Not(c == 59))  # the separator count is enumerated, not the field content
+                    # the separator count is enumerated, not the field content; a line never
+                    # contains a line feed (the framing splits at LF)
+                    w.p.add(z3.Not(c == 59), z3.Not(c == 10))
             fields.append(f_)
         term = w.pick(["\n", "", "\r\n", " \n"], "terminator")
         parts = []
